@@ -66,13 +66,16 @@ RefScan(av, i, acc) ==
 RefOf(av) == RefScan(av, 1, [items |-> <<>>, words |-> <<>>, err |-> FALSE])
 Ref == ref
 
-RefH(it)   == it.o \in {"H", "--with-filename"}
-Refh(it)   == it.o \in {"h", "--no-filename"}
+\* long names may be abbreviated to any unambiguous prefix (getopt_long)
+RefH(it)   == it.o = "H" \/ IsPrefixOf(it.o, "--with-filename", 4)
+Refh(it)   == it.o = "h" \/ IsPrefixOf(it.o, "--no-filename", 6)
 Refl(it)   == it.o \in {"l", "--files-with-matches"}
 RefL(it)   == it.o \in {"L", "--files-without-match"}
 RefPat(it) == it.o \in {"e", "f", "--regexp", "--file"}
-RefSpecial(it) == it.o \in {"--help", "--version", "V", "d", "r", "R", "z", "Z", "--recursive", "--null",
-                            "--include", "--exclude", "--directories", "--dereference-recursive", "--null-data"}
+RefSpecial(it) == \/ it.o \in {"V", "d", "r", "R", "z", "Z", "--recursive", "--null", "--directories",
+                               "--dereference-recursive", "--null-data"}
+                  \/ IsPrefixOf(it.o, "--help", 3) \/ IsPrefixOf(it.o, "--version", 3)
+                  \/ Pre(it.o, "--include") \/ Pre(it.o, "--exclude")
 RefCtx(it) == it.o \in {"A", "B", "C", "--after-context", "--before-context", "--context"} \/ Ch(it.o, 1) \in Digits
 Any(items, P(_)) == \E j \in 1..Len(items) : P(items[j])
 Sel(items, P(_)) == SelectSeq(items, P)
